@@ -514,7 +514,11 @@ class Eval:
             return rank_watch, asm_watch
         inp = prev_cands["input"]
         # the whole input was covered by one selected candidate taken from the list shown before
-        if len(real) == 1 and real[0][1] in "ps" and real[0][0] == 3 and prev_cands["seg"] and prev_cands["seg"][0] == 0:
+        # (table style without encoder stores only the elements of a composed sentence, never the sentence: whether its text
+        # comes back is up to sentence composition, which the property itself sets apart — so there the clause is read for
+        # dictionary entries, kind p)
+        if len(real) == 1 and real[0][1] in ("ps" if self.style == "script" else "p") and real[0][0] == 3 \
+                and prev_cands["seg"] and prev_cands["seg"][0] == 0:
             text = real[0][2]
             pos = next((k for k, cnd in enumerate(prev_cands["cands"]) if cnd[0] == text and cnd[3] == len(unhex(inp))), None)
             if pos is not None:
@@ -711,8 +715,8 @@ def run(c):
             audit["ok"] = False
             audit["failures"].append(("RimeModel.Props.C10", "leanchecker: " + log))
     exe = build()
-    n_dicts, n_hist, n_rounds = (3, 8, 10) if quick else (10, 24, 16)
-    luna_hist, luna_rounds = (3, 6) if quick else (40, 14)
+    n_dicts, n_hist, n_rounds = (3, 8, 10) if quick else (60, 30, 20)
+    luna_hist, luna_rounds = (3, 6) if quick else (240, 14)
     total, nontrivial, samples = {}, set(), []
     crashes = 0
     kinds = [("script", "c10_script", "script", "script 2"), ("table", "c10_table", "table", "table")]
@@ -743,6 +747,10 @@ def run(c):
         if sample_line is None and kindname != "luna":
             hs = [hs[0] + ["sample %d" % (20000 if quick else 400000)]] + hs[1:]
         rc, impl, model, evs = run_batch(c, exe, ws, schema, style, predict, rows, hs, "b%d" % bi)
+        if rc != 0 and any("error while loading shared libraries" in l for l in impl[:5]):
+            # librime.so is being relinked by a concurrent build of the same flavour: wait for it (build() takes the lock), once
+            exe = build()
+            rc, impl, model, evs = run_batch(c, exe, ws, schema, style, predict, rows, hs, "b%d" % bi)
         if sample_line is None:
             sample_line = next((l for l in impl if l.startswith("O sample")), None)
         if rc != 0:
